@@ -98,6 +98,18 @@ def run_pyser(n, ops, big_endian=False):
         return 'EXC@%d' % idx
 
 
+def own(d, a):
+    """the application owns what a fetch returned and may overwrite it: results that do not alias the source buffer are filled with ones
+    after they have been printed.  Later reads (of this or of any other Deserializer) must not see that: zero extension yields FRESH
+    zeros on every call."""
+    try:
+        src = d._buf._buf if hasattr(d, '_buf') and hasattr(d._buf, '_buf') else getattr(d, '_buf', None)
+        if isinstance(a, numpy.ndarray) and a.size and a.flags.writeable and (src is None or not numpy.shares_memory(a, src)):
+            a[...] = True if a.dtype == numpy.bool_ else 0xFF
+    except Exception:
+        pass
+
+
 def des_op(d, t, out):
     c = t[0]
     if c == 'sk':
@@ -105,9 +117,13 @@ def des_op(d, t, out):
     elif c == 'pad':
         d.pad_to_alignment(int(t[1]))
     elif c == 'ab':
-        out.append(hx(d.fetch_aligned_bytes(int(t[1])).tobytes()))
+        a = d.fetch_aligned_bytes(int(t[1]))
+        out.append(hx(a.tobytes()))
+        own(d, a)
     elif c == 'ub':
-        out.append(hx(d.fetch_unaligned_bytes(int(t[1])).tobytes()))
+        a = d.fetch_unaligned_bytes(int(t[1]))
+        out.append(hx(a.tobytes()))
+        own(d, a)
     elif c in ('au', 'uu', 'as', 'us'):
         f = {'au': d.fetch_aligned_unsigned, 'uu': d.fetch_unaligned_unsigned, 'as': d.fetch_aligned_signed, 'us': d.fetch_unaligned_signed}[c]
         out.append(str(int(f(int(t[1])))))
@@ -116,9 +132,13 @@ def des_op(d, t, out):
     elif c == 'bit':
         out.append('1' if d.fetch_unaligned_bit() else '0')
     elif c == 'abits':
-        out.append(bitstr(d.fetch_aligned_array_of_bits(int(t[1]))))
+        a = d.fetch_aligned_array_of_bits(int(t[1]))
+        out.append(bitstr(a))
+        own(d, a)
     elif c == 'ubits':
-        out.append(bitstr(d.fetch_unaligned_array_of_bits(int(t[1]))))
+        a = d.fetch_unaligned_array_of_bits(int(t[1]))
+        out.append(bitstr(a))
+        own(d, a)
     elif c in ('af', 'uf'):
         size = int(t[1])
         v = getattr(d, ('fetch_aligned_f' if c == 'af' else 'fetch_unaligned_f') + str(size * 8))()
@@ -132,6 +152,7 @@ def des_op(d, t, out):
         a = f(numpy.dtype(t[1]), int(t[2]))
         assert len(a) == int(t[2])
         out.append(hx(a.tobytes()) + (('/' + '.'.join(str(int(x)) for x in a)) if t[1][1] == 'u' else ''))
+        own(d, a)
     elif c == 'rem':
         out.append(str(d.remaining_bit_length))
     else:
@@ -148,7 +169,9 @@ def run_zeb(buf, ops):
             if t[0] == 'gb':
                 out.append(str(z.get_byte(int(t[1]))))
             elif t[0] == 'sl':
-                out.append(hx(z.get_unsigned_slice(int(t[1]), int(t[2])).tobytes()))
+                a = z.get_unsigned_slice(int(t[1]), int(t[2]))
+                out.append(hx(a.tobytes()))
+                own(z, a)
             elif t[0] == 'fk':
                 out.append(hx(b''.join(bytes(m) for m in z.fork_bytes(int(t[1]), int(t[2])))))
             elif t[0] == 'bl':
